@@ -128,6 +128,14 @@ def generate(seed, prop):
                 if proc["cls"] in ("azimuthal", "single_azimuth"):
                     break
                 proc = draw_processing(rng)
+    if rng.random() < 0.1:
+        # a second NAME for one of the recordings (a symbolic link 'SITE_A' -> 'raw/rec_0001' as field campaigns keep them):
+        # an input of its own, with an output of its own named after the link
+        j = rng.randrange(len(files))
+        files.append(dict(files[j], stem="SITE_%s" % rng.choice(["A", "B7"]), link_to=j))
+        if rng.random() < 0.4:
+            files.append(dict(files[j], stem="alias.of.%d" % j, link_to=j))
+    n_files = len(files)
     order = list(range(n_files))
     rng.shuffle(order)
     if rng.random() < 0.08:
@@ -153,6 +161,8 @@ def write_inputs(d, world):
     with warnings.catch_warnings():
         warnings.simplefilter("ignore")
         for f in world["files"]:
+            if f.get("link_to") is not None:
+                continue
             g = np_rng(f["k"])
             n, rate = f["n"], f["rate"]
             t = np.arange(n) / rate
@@ -179,6 +189,12 @@ def write_inputs(d, world):
                 p = os.path.join(d, f["stem"] + ".mseed")
                 Stream(trs).write(p, format="MSEED")
             paths[f["stem"]] = p
+        for f in world["files"]:
+            if f.get("link_to") is not None:
+                target = paths[world["files"][f["link_to"]]["stem"]]
+                p = os.path.join(d, f["stem"] + os.path.splitext(target)[1])
+                os.symlink(target, p)
+                paths[f["stem"]] = p
     pre = world["pre"]
     ps = H.HvsrPreProcessingSettings(orient_to_degrees_from_north=pre["orient"],
                                      filter_corner_frequencies_in_hz=list(pre["filter"]),
